@@ -86,6 +86,8 @@ class World:
             return SF.integrate(a[0])
         if op == "conjugate":
             return SF.conjugate(a[0])
+        if op == "concatenate":
+            return SF.concatenate(a)
         return SF.multiply(a[0], a[1])
 
     def step(self, ev):
@@ -280,7 +282,8 @@ def record_session(seed, nsteps, nctx=3, maxsyms=8):
         for _ in range(nsteps):
             choices = ["NewBase"] if len(w.syms) < maxsyms else []
             usable = [i + 1 for i, s in enumerate(w.syms)
-                      if s.operation is None or s.operation.operator.name != "INTEGRATION"]
+                      if s.operation is None
+                      or s.operation.operator.name not in ("INTEGRATION", "CONCATENATE")]
             if usable and len(w.syms) < maxsyms:
                 choices += ["SymOp", "CompOp", "CompOp"]
             if w.syms:
@@ -294,8 +297,9 @@ def record_session(seed, nsteps, nctx=3, maxsyms=8):
             if a == "NewBase":
                 ev["s"] = len(w.syms) + 1
             elif a == "SymOp":
-                ev["op"] = rnd.choice(["integrate", "conjugate", "multiply"])
-                ev["args"] = [rnd.choice(usable) for _ in range(2 if ev["op"] == "multiply" else 1)]
+                ev["op"] = rnd.choice(["integrate", "conjugate", "multiply", "concatenate"])
+                ev["args"] = [rnd.choice(usable)
+                              for _ in range(2 if ev["op"] in ("multiply", "concatenate") else 1)]
                 ev["s"] = len(w.syms) + 1
             elif a == "Enter":
                 ev["c"] = rnd.choice([c for c in range(1, nctx + 1) if c not in stack])
@@ -312,8 +316,9 @@ def record_session(seed, nsteps, nctx=3, maxsyms=8):
                 if not known:
                     continue
                 ev["c"] = c
-                ev["op"] = rnd.choice(["integrate", "conjugate", "multiply"])
-                ev["args"] = [rnd.choice(known) for _ in range(2 if ev["op"] == "multiply" else 1)]
+                ev["op"] = rnd.choice(["integrate", "conjugate", "multiply", "concatenate"])
+                ev["args"] = [rnd.choice(known)
+                              for _ in range(2 if ev["op"] in ("multiply", "concatenate") else 1)]
                 ev["s"] = len(w.syms) + 1
             elif a == "BadOp":
                 cands = [(c, d, s) for c in w.ctx for d in w.ctx if c != d
